@@ -40,6 +40,8 @@ var Tokens = []string{
 	"TYPE @r regex\n", "TYPE @j\n", "ENUM @e\n", "200 regex\n", "Description\n",
 	// the ends of the response-code range, annotations closed by several asterisks, an enum body with a comment on its line, a TAB
 	"599", "100", "/*a**/", "/**a*/", "[1] #c", "\t",
+	// a complete directive whose schema body holds a zero byte where the schema library lets it pass (a comment)
+	"TYPE @z\n{ # z\x00\n}\n",
 }
 
 // Joiners used between tokens.
